@@ -26,6 +26,7 @@ import Qfx.Drv.Sock
 import Qfx.Drv.SockMon
 import Qfx.Drv.Loop
 import Qfx.Drv.LoopMon
+import Qfx.Drv.Drain
 namespace Qfx.Drv
 
 def families : List (String × Family) :=
@@ -44,6 +45,7 @@ def families : List (String × Family) :=
   , ("sock", sockFamily), ("sock-mon", sockMonFamily)
   , ("sockj", sockFamily), ("sockj-mon", sockMonFamily)
   , ("loop", loopFamily), ("loop-mon", loopMonFamily)
+  , ("drain", drainFamily), ("drain-mon", drainMonFamily)
   ]
 
 end Qfx.Drv
